@@ -311,6 +311,55 @@ def h_readonly_collection(nv: int, a: int, b: int) -> bool:
     return ok and file_bytes(p) == before
 
 
+def h_live_reader(nprior: int, nput: int, cut: int, nk: int, ka: int, kb: int, nv: int, x: int, y: int, z: int) -> bool:
+    """
+    a second handle opened while a writer still holds its handle open: of the bytes the writer has written, any prefix may have reached the file
+    (buffered stream, program order).  Whatever the reader lists is a key of a successful put and reads back exactly; once the writer has closed, a
+    fresh handle sees everything
+    pre: 0 <= nprior <= 1 and 1 <= nput <= 2 and 0 <= cut <= 40 and 1 <= nk <= 2 and 0 <= nv <= 3 and isbyte(ka, kb, x, y, z)
+    post: _
+    """
+    from harness.C03 import crash_image, _listed_ok
+    k1 = mkb(nk, ka, kb)
+    v1 = mkb(nv, x, y, z)
+    if k1 == b"P" or k1 == b"Q":
+        return True
+    prior = [(b"P", b"pv")][:nprior]
+    session = [(k1, v1), (b"Q", b"qv")][:nput]
+    p = new_path()
+    f = UKVFile(p, "w")
+    for k, v in prior:
+        f.put(k, v)
+    f.close()
+    pre = file_bytes(p)
+    clear_writes()
+    w = UKVFile(p, "a")
+    for k, v in session:
+        w.put(k, v)
+    w.close()
+    full = file_bytes(p)
+    log = writes_log()
+    total = sum(len(d) for _, d in log if d is not None)
+    if cut > total:
+        return True
+    img = None
+    for c_ in range(total + 1):
+        if cut == c_:
+            img = crash_image(pre, log, c_)
+            break
+    q = new_path()
+    set_file_bytes(q, img)
+    r = UKVFile(q, "r")                       # the reader, while the writer's tail is still in its buffer
+    if not _listed_ok(r, prior, session):
+        return False
+    r.close()
+    set_file_bytes(q, full)                   # the writer has closed
+    r2 = UKVFile(q, "r")
+    ok = _listed_ok(r2, prior + session, [])
+    r2.close()
+    return ok
+
+
 def h_sessions(s1: int, s2: int, s3: int, nv: int, a: int) -> bool:
     """
     Session-granularity histories over two long-lived collection handles, three sessions; each session selector encodes
@@ -377,7 +426,7 @@ def run(rep, tier):
     rep.encoded = ENCODED
     rep.models_validated = E.validate_storage_models()
     rep.bounds = {"records": "<= 3 per file", "key bytes": "1..2 symbolic (+ 255/256-byte keys of one repeated symbolic byte)",
-                  "value bytes": "0..3 symbolic", "bufsize": "symbolic int in [-1, 200]", "handles": "<= 3", "sessions": "<= 3 (thorough 4)",
+                  "value bytes": "0..3 symbolic", "bufsize": "symbolic int in [-1, 200]", "handles": "<= 3 (+ a reader opened while a writer's last 0..all bytes are still buffered)", "sessions": "<= 3 (thorough 4)",
                   "header fields": "h1 <= 3 B, comment <= 2 B, descriptor block <= 2 B"}
     rep.outside = ["values of kB size and 255-byte key *contents* (only the length boundary is symbolic)", "Dir/Zip/Tar back ends",
                    "buffer sizes above 200", "overwrite ('w') of a file another live handle has cached", "histories longer than the bound"]
@@ -392,6 +441,7 @@ def run(rep, tier):
         {"fn": "h_coll_buffer", "timeout": 180},
         {"fn": "h_coll_dup", "timeout": 120},
         {"fn": "h_readonly_collection", "timeout": 60},
+        {"fn": "h_live_reader", "timeout": 240},
     ] + [{"fn": "h_sessions", "timeout": 240, "split": s} for s in range(8)]
     xh.run_obligations(rep, "harness.C02", specs)
     xh.known_witness(rep, "harness.C02")
